@@ -109,6 +109,7 @@ func lmExplore(c *Ctx, g *lmm.Geom, initSV []uint64, maxOps, mcOps int, l1, l2 *
 		}
 		if e.L.Op == "overwrite" {
 			e.L.NewSV = e.T.SV
+			e.L.OldSV = e.S.SV
 		}
 		gr.edges = append(gr.edges, lmEdge{S: e.S, L: e.L, T: e.T, Obs: ob})
 		ei := len(gr.edges) - 1
